@@ -4,7 +4,7 @@
    observation with oracles that do not go through the model's algorithms. *)
 From SC Require Export Base.Prelude Traits.Str Traits.Parent Traits.Vending Traits.FanSpeed Traits.ModeTrait
   Traits.EnterLeave Traits.Meter Traits.Publication Traits.Options Traits.Store Traits.VendingStore Traits.FanMask.
-From SC Require Export Msg.Msg Msg.Schema Msg.Path Masks.Get Traits.MeterMask Traits.StockMask.
+From SC Require Export Msg.Msg Msg.Schema Msg.Path Masks.Get Traits.MeterMask Traits.StockMask Traits.PubStore.
 From Coq Require Import QArith Qabs.
 Open Scope Z_scope.
 
@@ -26,7 +26,8 @@ Inductive c20case :=
 | KMeterSeq (pre : mmeter) (o : mmop) (code : Z) (ret : option mmeter) (post : mmeter)
 | KSchema (dumped : schema)
 | KStockMask (name : string) (pre : option zstock) (req : zstock) (um : mask) (code : Z) (ret_ok : bool)
-             (post : option zstock) (other_same : bool).
+             (post : option zstock) (other_same : bool)
+| KPubs (now : Z) (pre : pubs) (o : pubop) (cands : list string) (obs : pout) (post : pubs) (hpre hpost : string).
 
 (* ---- meter with arbitrary update masks (paths) ---- *)
 Definition ts_eqb (a b : ts) : bool := (fst a =? fst b) && (snd a =? snd b).
@@ -564,6 +565,44 @@ Definition vstore_agrees (pre : vstate) (o : vop) (obs : vres) (post : vstate) :
       end && store_eqb stock_eqb (fst s') (fst post) && store_eqb cons_eqb (snd s') (snd post)
   end.
 
+(* ---- publication collection over all ids, generated ids ---- *)
+Definition pubs_eqb (a b : pubs) : bool :=
+  list_eqb (fun x y => String.eqb (fst x) (fst y) && pub_eqb (snd x) (snd y)) a b.
+(* the id the operation addresses: for a create without id, the id of the publication the server answered with *)
+Definition pubs_addressed (o : pubop) (obs : pout) : string :=
+  if needs_gen o then match obs with POk n => p_id n | _ => EmptyString end else pub_op_id o.
+Definition pubs_hash (pre : pubs) (o : pubop) (obs : pout) (post : pubs) (hpre hpost : string) : content -> string :=
+  let id := pubs_addressed o obs in local_hash (sfind id pre) (sfind id post) hpre hpost.
+Definition pubs_agrees (now : Z) (pre : pubs) (o : pubop) (cands : list string) (obs : pout) (post : pubs) (hpre hpost : string) : bool :=
+  let '(out, p') := pubs_step_c (pubs_hash pre o obs post hpre hpost) pre o cands now in
+  pout_eqb obs out && pubs_eqb post p'.
+(* the freshness clause, on the observation: g is the first of the first ten candidates that is non-empty and unused *)
+Fixpoint first_fresh_is (g : string) (cands : list string) (n : nat) (pre : pubs) : bool :=
+  match n, cands with
+  | S n', c :: r =>
+      if String.eqb c g then true
+      else (String.eqb c EmptyString || match sfind c pre with Some _ => true | None => false end) && first_fresh_is g r n' pre
+  | _, _ => false
+  end.
+Definition pubs_ok (now : Z) (pre : pubs) (o : pubop) (cands : list string) (obs : pout) (post : pubs) (hpre hpost : string) : bool :=
+  let id := pubs_addressed o obs in
+  store_wf post
+  && forallb (fun e => String.eqb (fst e) (p_id (snd e))) post
+  && forallb (fun e => String.eqb (fst e) id || option_eqb pub_eqb (sfind (fst e) post) (Some (snd e))) pre
+  && forallb (fun e => String.eqb (fst e) id || option_eqb pub_eqb (sfind (fst e) pre) (Some (snd e))) post
+  && if needs_gen o then
+       match obs with
+       | POk n =>
+           negb (String.eqb (p_id n) EmptyString)
+           && match sfind (p_id n) pre with None => true | Some _ => false end
+           && first_fresh_is (p_id n) cands 10 pre
+           && pub_ok now None (pub_norm_op o (p_id n)) obs (sfind (p_id n) post) hpre hpost
+       | PErr c => (c =? 10) && pubs_eqb post pre
+                   && negb (existsb (fun c => negb (String.eqb c EmptyString) && match sfind c pre with None => true | Some _ => false end) (firstn 10 cands))
+       | PNil => false
+       end
+     else pub_ok now (sfind id pre) o obs (sfind id post) hpre hpost.
+
 Definition C20_ok (c : c20case) : bool :=
   match c with
   | KParent pre o ret post => parent_ok pre o ret post
@@ -587,6 +626,7 @@ Definition C20_ok (c : c20case) : bool :=
   | KMeterSeq pre o code ret post => meter_seq_ok pre o code ret post
   | KSchema _ => true
   | KStockMask _ pre req um code ret_ok post other_same => stock_mask_ok pre req um code ret_ok post other_same
+  | KPubs now pre o cands obs post hpre hpost => pubs_ok now pre o cands obs post hpre hpost
   end.
 
 Definition C20_guard (c : c20case) : bool :=
@@ -609,6 +649,7 @@ Definition C20_guard (c : c20case) : bool :=
   | KVStore pre _ _ _ _ => vstate_wf pre
   | KFanMask ps pre _ _ _ _ => presets_wf ps && fan_consistent ps pre
   | KMeterSeq _ _ _ _ _ | KSchema _ | KStockMask _ _ _ _ _ _ _ _ => true
+  | KPubs _ pre _ _ _ _ _ _ => store_wf pre
   end.
 
 Definition agrees (c : c20case) : bool :=
@@ -648,6 +689,7 @@ Definition agrees (c : c20case) : bool :=
   | KMeterSeq pre o code ret post => meter_seq_agrees pre o code ret post
   | KSchema dumped => schema_agrees meter_schema dumped && schema_agrees stock_schema dumped
   | KStockMask name pre req um code _ post _ => stock_mask_agrees name pre req um code post
+  | KPubs now pre o cands obs post hpre hpost => pubs_agrees now pre o cands obs post hpre hpost
   end.
 
 Definition judge (c : c20case) : Z :=
